@@ -4,6 +4,7 @@ from ..prog import *
 from ..facts import AnalysisBroken
 from .. import httpframe as H
 from .. import chunked as CH
+from .. import httperr as HE
 
 UNITS = ["http"]
 LEVEL = "other"
@@ -55,4 +56,4 @@ def run(ctx, config):
             seen.add(f_.key)
             uniq.append(f_)
     r.findings = uniq
-    return [r, CH.rule_chunked(P, "%s-chunked" % __name__.split(".")[-1], WHAT)]
+    return [r, CH.rule_chunked(P, "%s-chunked" % __name__.split(".")[-1], WHAT)] + ([HE.rule_error_cb(P, "C24-eof")] if KIND == H.RESPONSE else [])
